@@ -1,6 +1,7 @@
 package props
 
 import (
+	"errors"
 	"fmt"
 	"os"
 	"strings"
@@ -147,14 +148,41 @@ func c03layout(env *core.Env) (directed, random int) {
 	return len(c03directed) * len(c03subjectNames), env.Pick(400, 12000) * len(c03subjectNames)
 }
 
+// c03faultHistories: multi-record operations whose steps are ordered so that a store failure in the middle leaves a
+// well-formed tree (new directory written before its children move, old one deleted last ...). One store call fails per run.
+func c03faultHistories() [][]fsx.Step {
+	deep := []fsx.Step{{K: "Mkdir", P: "a", Perm: 0o755}, {K: "WriteFullFile", P: "a/b", Data: "1", Perm: 0o644}, {K: "WriteFullFile", P: "a/ab", Data: "2", Perm: 0o600},
+		{K: "Mkdir", P: "a/c", Perm: 0o755}, {K: "WriteFullFile", P: "a/c/b", Data: "3", Perm: 0o644}}
+	var hs [][]fsx.Step
+	for _, op := range []fsx.Step{
+		{K: "Rename", P: "a", P2: "c"},
+		{K: "Rename", P: "a/c", P2: "b"},
+		{K: "RemoveAll", P: "a"},
+		{K: "Remove", P: "a/b"},
+		{K: "MkdirAll", P: "b/c/ab", Perm: 0o755},
+		{K: "MkdirAll", P: "a/c/ab/b", Perm: 0o700},
+		{K: "OpenClose", P: "a", Flag: os.O_RDWR | os.O_CREATE, Perm: 0o644, Data: "x"},
+		{K: "OpenClose", P: "a/c", Flag: os.O_WRONLY | os.O_CREATE | os.O_TRUNC, Perm: 0o644, Data: "x"},
+		{K: "WriteFullFile", P: "a/c", Data: "over a directory", Perm: 0o644},
+		{K: "WriteFullFile", P: "a/b", Data: "replace", Perm: 0o600},
+		{K: "Mkdir", P: "a/b", Perm: 0o755},
+		{K: "Chmod", P: "a/c", Perm: 0o700},
+		{K: "Rename", P: "a/b", P2: "a/c/b"},
+		{K: "Rename", P: "a/b", P2: "a/c"},
+	} {
+		hs = append(hs, append(append([]fsx.Step(nil), deep...), op))
+	}
+	return hs
+}
+
 func init() {
 	core.Register(&core.Prop{
 		ID:    "C03",
 		Level: "exploration",
 		Rule: "invariant walker: after every step (successful or failed) of a history the complete closure of candidate paths (alphabet a,b,c,ab to depth 3 plus every listed name, not only what listings reveal) is probed with Stat, Open, handle Stat and ReadDir and checked for: root is a directory; every existing path has a directory parent that lists it; every listed entry can be Stat'ed and opened with agreeing kinds; no duplicate names. " +
-			"Termination is decided on logical steps: one operation may make at most 3000 store calls. Subjects: keyvalue.FS over the real mem store, over a plain Store, mount.FS with mount points a, a/b, ab, c/a, and Sub views (dir, mount point, '.', nested). Cases: the C01 situation matrix plus root removal/rename and own-subtree renames on every subject, and random histories incl. operations on the root. Non-trivial: >=1 mutation succeeded and >=1 step failed; distinct by subject+history",
+			"Termination is decided on logical steps: one operation may make at most 3000 store calls. Subjects: keyvalue.FS over the real mem store, over a plain Store, mount.FS with mount points a, a/b, ab, c/a, and Sub views (dir, mount point, '.', nested). Cases: the C01 situation matrix plus root removal/rename and own-subtree renames on every subject, random histories incl. operations on the root, and multi-record operations (directory rename, RemoveAll, MkdirAll, create over a directory) repeated with each of their store calls failing once. Non-trivial: >=1 mutation succeeded and >=1 step failed; distinct by subject+history",
 		Assumptions: []string{"for Sub views the history does not remove or rename the view's own top directory (it is an ordinary directory of the parent); the invariant is evaluated on the parent file system", "store-call budget 3000 per operation on trees of <= 40 entries stands in for 'every operation terminates'"},
-		NumCases:    func(env *core.Env) int { d, r := c03layout(env); return d + r },
+		NumCases:    func(env *core.Env) int { d, r := c03layout(env); return d + r + len(c03faultHistories()) },
 		Batch:       150,
 		Run:         c03run,
 		Floor: func(env *core.Env, agg *core.Agg) string {
@@ -166,9 +194,57 @@ func init() {
 	})
 }
 
+// c03faultRun: the last operation of the history is repeated on a fresh keyvalue.FS over a plain store once per store
+// call it makes, with that call failing; after the failing (or surviving) operation the closure must be a tree.
+func c03faultRun(env *core.Env, hist []fsx.Step, res *core.CaseResult) {
+	cands := fsx.Candidates(fsx.Names, 3)
+	run := func(failAt int) (calls int, fired bool, r fsx.Result, fsys hackpadfs.FS) {
+		p := kvs.NewPlain()
+		fsys, _ = keyvalue.NewFS(p)
+		var hs fsx.Handles
+		for _, st := range hist[:len(hist)-1] {
+			_ = fsx.Exec(fsys, st, &hs, nil)
+		}
+		p.Hook = func(ev kvs.Event) error {
+			calls++
+			if calls-1 == failAt {
+				fired = true
+				return errors.New("injected store failure")
+			}
+			return nil
+		}
+		r = fsx.Exec(fsys, hist[len(hist)-1], &hs, nil)
+		p.Hook = nil
+		hs.CloseAll()
+		return
+	}
+	n, _, _, _ := run(-1)
+	op := hist[len(hist)-1]
+	for k := 0; k < n; k++ {
+		_, fired, r, fsys := run(k)
+		if !fired {
+			continue
+		}
+		res.Count("fault_states_walked", 1)
+		probs, probes := fsx.Closure(fsys, cands)
+		res.Count("probes", probes)
+		res.Count("states_walked", 1)
+		for _, pr := range probs {
+			res.Violate(fmt.Sprintf("C03|kv|%s|store-failure-in-the-middle|%s", op.K, pr[0]), fmt.Sprintf("[kvplain] %s with store call #%d of %d failing (result %s): %s", op, k, n, r, pr[1]), map[string]any{"history": fsx.HistoryString(hist), "fault_index": k})
+			break
+		}
+	}
+	res.Nontrivial = n > 1
+	res.Key = core.Hash("fault|" + fsx.HistoryString(hist))
+}
+
 func c03run(env *core.Env, idx int) core.CaseResult {
 	var res core.CaseResult
-	d, _ := c03layout(env)
+	d, rnd := c03layout(env)
+	if idx >= d+rnd {
+		c03faultRun(env, c03faultHistories()[idx-d-rnd], &res)
+		return res
+	}
 	ns := len(c03subjectNames)
 	sname := c03subjectNames[idx%ns]
 	var cs c01case
